@@ -160,9 +160,19 @@ def audit(prop, report, thorough):
     return ok
 
 
-def build_harness(report):
+KVH_PLAIN = os.path.join(BUILD, "cargo-plain", "debug", "kvh")
+
+
+def build_harness(report, prop=None):
     rc, out = sh(["cargo", "build", "--offline"], cwd=HARNESS, timeout=3600)
     report["cargo_build"] = {"ok": rc == 0, "log": out[-6000:] if rc != 0 else ""}
+    if rc == 0 and prop == "C19":
+        # second build of the same harness against the same tree, without CPU dispatch (multiversion)
+        rc, out = sh(["cargo", "build", "--offline", "--no-default-features", "--target-dir", os.path.join(BUILD, "cargo-plain")],
+                     cwd=HARNESS, timeout=3600)
+        report["cargo_build_plain"] = {"ok": rc == 0, "log": out[-6000:] if rc != 0 else ""}
+        if rc != 0:
+            report["cargo_build"] = {"ok": False, "log": "plain build failed: " + out[-6000:]}
     return rc == 0
 
 
@@ -255,7 +265,7 @@ def main():
         if not report["proof_ok"]:
             report["audit"] = {"ok": False, "theorems": theorem_names(prop), "axioms": {}, "skipped": "build failed"}
     with Lock("cargo"):
-        cargo_ok = build_harness(report)
+        cargo_ok = build_harness(report, prop)
 
     # ---- correspondence ----------------------------------------------------------------------
     cases = {"evaluations": 0, "impl_vs_model": [], "impl_vs_spec": [], "driver_errors": [], "known": []}
@@ -276,7 +286,7 @@ def main():
             else:
                 ops_files.append(o)
         rc, out = sh([KVH, "gen", prop, tier, str(seed), os.path.join(work, "gen")], timeout=6 * 3600,
-                     env={"KVH_SHARDS": str(NCPU)})
+                     env={"KVH_SHARDS": str(NCPU), "KVH_PLAIN": KVH_PLAIN})
         if rc != 0:
             cases["driver_errors"].append("kvh gen failed rc=%d: %s" % (rc, out[-2000:]))
         report["gen_log"] = out[-3000:]
